@@ -229,7 +229,7 @@ func finish(o RunOpts, spec *PropSpec, ov *Overlay, jobs []Job, results []*jobRe
 		if r == nil || r.st == nil {
 			continue
 		}
-		if !r.job.NoEnd && r.st.Reached["end"] == 0 && len(r.st.Violations) == 0 && len(r.st.KFHits) == 0 {
+		if !r.job.NoEnd && r.st.Reached["end"] == 0 && len(r.st.Violations) == 0 && len(r.st.KFHits) == 0 && len(r.st.Inconclusive) == 0 {
 			broken = append(broken, "VACUOUS: "+r.job.name()+" never reaches its end marker")
 		}
 		for _, ne := range r.st.NotEnc {
